@@ -1,14 +1,17 @@
-"""Replay: the same lemma bodies on REAL pysam.AlignedSegment objects."""
 from replay.common import pysam_mk
 
 
 def replay(args, outdir):
     import importlib
-    H = importlib.import_module('harness.C06')
-    H.FakeRead = pysam_mk
+    H = importlib.import_module('harness.C13')
+    # real pysam reads need an MD tag for get_aligned_pairs(with_seq=True): emulate "all match" like FakeRead does
+    def mk(**kw):
+        r = pysam_mk(**kw)
+        r.set_tag('MD', str(len(kw['seq'])))
+        return r
+    H.FakeRead = mk
     a, lemma = args['cex'], args['lemma']
-    fn = {'L1_nla_pairwise': H._l1_nla_pair, 'L2_chic_pairwise': H._l2_chic_pair, 'L2_plain_pairwise': H._l2_plain_pair,
-          'L3_grouping': H._l3_grouping, 'L4_duplicate_rank_tags': H._l4_tags, 'L5_fragment_cap': H._l5_cap}[lemma]
+    fn = {'L1_pick_best_base_call': H._l1_pick_best, 'L2_mate_overlap': H._l2_mates, 'L3_majority': H._l3_majority, 'L4_order_duplication': H._l4_order}[lemma]
     try:
         ok = fn(**a)
     except Exception as e:
